@@ -69,6 +69,11 @@ def gen_relay():
             yield Case(line(["fs.1.90", sp, "rp.1.1", "psucc.1.0", "tick.1", "gone.1", "tick.2", "psucc.1.0", "tick.3", "rp.1.2", "tick.4", "pdone.1.0", "gone.2", "tick.5"]), cls=cls)
             # every kind of consumer triggers / keeps the pull
             yield Case(line([sp, "pfail.1.0", "rs.1.90", "pfail.1.0", "ts.1.91", "pfail.1.0", "ds.1.92", "pl.92", "pfail.1.0", "gone.90", "gone.91", "gone.92", "tick.1", "tick.2"]), cls=cls)
+    # attempts that fail by themselves before any connection exists (malformed url, scheme without pull session); budget 0
+    for u in ("bad", "badrtsp", "http"):
+        for a in autos:
+            yield Case(line(["spull.1.0.%s.%s" % (a, u), "tick.1", "fs.1.90", "spull.1.0.%s.%s" % (a, u), "tick.2", "xpull.1", "spull.1.0.%s.%s" % (a, u), "rp.1.1",
+                             "spull.1.0.%s.%s" % (a, u), "gone.1", "tick.3", "gone.90", "tick.4", "tick.5"]), cls="pull-selffail-" + u)
     # static relay pull (retry forever, auto-stop immediately)
     st = "static=1"
     yield Case(line(["fs.1.90", "psucc.1.0", "tick.1", "gone.90", "tick.2", "tick.3"], st), cls="static")
@@ -263,6 +268,9 @@ def oracle_run(c, out):
             pulling_b = b["pulling"] == "1" if b else False
             occ_b = c03.occupants(b) if b else []
             started = g["pulling"] == "1" and (not pulling_b or (outstanding.get(s) in ended))
+            if o == "spull" and s == "s" + p[1] and len(p) > 4 and p[4] in ("bad", "badrtsp", "http"):
+                # the attempt fails by itself within the step: it started iff the call names it and its end is reported
+                started = res.startswith("0:") and res[2:] in ended
             consumers_after = bool(g["ssubs"]) or "a" in g["push"]
             expect = None
             why = ""
